@@ -41,6 +41,19 @@ pub fn run(ctx: &Ctx) -> (Report, String) {
         if ctx.is_main() {
             rep.require("ladder_pictures_compared", n as u64);
         }
+        let pr = par_shards(64, ctx.threads, |s| {
+            let mut r = Report::new();
+            let mut k = s;
+            while k < PAIRS_N {
+                crate::mon::guarded(&mut r, || J::obj().set("property", "C02").set("kind", "pairs").set("k", k), |r| pairs_case(ctx, k, r));
+                k += 64;
+            }
+            r
+        });
+        rep.merge(Report::merge_all(pr));
+        if ctx.is_main() {
+            rep.require("equal_magnitude_pair_pictures", PAIRS_N as u64);
+        }
     }
     if ctx.is_main() {
         rep.require("pictures_compared", if ctx.tier == Tier::Quick { 250_000 } else { 4_000_000 } * ctx.scale_pct / 100);
@@ -163,6 +176,45 @@ pub fn ladder_case(ctx: &Ctx, k: usize, rep: &mut Report) {
         rep.count(&format!("ladder:{}", if pei > 0 { "pei" } else if w.max(h) >= 65519 { "dim>=65519" } else if w.max(h) > 2048 { "dim>2048" } else if ((w + 15) / 16) * ((h + 15) / 16) > 4096 { "mb>4096" } else { "other" }));
     }
 }
+
+/// Directed: every pair of scan positions carrying coefficients of equal magnitude (all four sign
+/// combinations) - exact cancellations inside the transform - six blocks per 16x16 picture.
+pub fn pairs_case(ctx: &Ctx, k: usize, rep: &mut Report) {
+    let mut rng = Rng::new(ctx.seed ^ 0xC02BA, k as u64);
+    // enumerate (p1 < p2) over 1..=63, 4 sign combinations: 1953 * 4 = 7812 blocks, 6 per picture
+    let per = 6usize;
+    let flavour = Flavour::Sor((k % 2) as u8);
+    let mut cfg = gen_cfg(&mut rng, flavour, 16, 16);
+    cfg.pei = 0;
+    cfg.stuffing_pct = 0;
+    let hdr = make_header(&cfg, 0, &mut rng);
+    let mag = 1 + rng.below(12) as i32;
+    let blocks: [SymBlock; 6] = std::array::from_fn(|b| {
+        let idx = k * per + b;
+        let (pair, signs) = (idx / 4, idx % 4);
+        // unrank the pair
+        let (mut p1, mut rem) = (1usize, pair);
+        while p1 < 63 && rem >= 63 - p1 {
+            rem -= 63 - p1;
+            p1 += 1;
+        }
+        if p1 >= 63 {
+            return SymBlock { intradc: Some(100), events: vec![] };
+        }
+        let p2 = p1 + 1 + rem;
+        let (l1, l2) = (if signs & 1 == 0 { mag } else { -mag }, if signs & 2 == 0 { mag } else { -mag });
+        let esc = if flavour == Flavour::Sor(1) { Esc::Esc7 } else { Esc::Esc8 };
+        SymBlock { intradc: Some(if rng.chance(1, 2) { 100 } else { 255 }), events: vec![Ev { run: (p1 - 1) as u8, level: l1, esc }, Ev { run: (p2 - p1 - 1) as u8, level: l2, esc }] }
+    });
+    let pic = SymPicture { hdr, w: 16, h: 16, mbs: vec![SymMb::Coded { kind: crate::model::tables::MbKind::Intra, dquant: 1, mvd: [[0; 2]; 4], blocks }], stuffing: vec![] };
+    let before = rep.get("pictures_compared");
+    judge(rep, &pic, flavour, &cfg, J::obj().set("property", "C02").set("kind", "pairs").set("tier", ctx.tier_name()).set("seed", ctx.seed).set("stage", ctx.stage.clone()).set("k", k), false);
+    if rep.get("pictures_compared") > before {
+        rep.count("equal_magnitude_pair_pictures");
+    }
+}
+
+pub const PAIRS_N: usize = (1953 * 4 + 5) / 6;
 
 pub fn case(ctx: &Ctx, shard: usize, index: u64, rep: &mut Report) {
     let mut rng = Rng::new(ctx.seed ^ 0xC02, ((shard as u64) << 40) | index);
